@@ -1,9 +1,10 @@
 """C09 -- kdq-tree detectors alarm exactly when leaf divergence exceeds a bootstrap bound."""
 from .common import A_COMMON
 KS = "menelaus.data_drift.kdq_tree:KdqTreeStreaming"
-TARGETS = [("fn", KS + ".update"), ("fn", KS + ".reset")]
+KB = "menelaus.data_drift.kdq_tree:KdqTreeBatch"
+TARGETS = [("fn", KS + ".update"), ("fn", KS + ".reset"), ("fn", KB + ".update"), ("fn", KB + ".set_reference"), ("fn", KB + ".reset")]
 LEVEL = "exploration"
-LEVEL_TEXT = ('Bounded: KdqTreeBatch / KdqTreeStreaming against the rule recomputed from public outputs with the bootstrap re-drawn under the same seed (critical value, per-batch replacement of test counts, window / silence / persistence schedule, reference replacement). Claimed as exploration.')
+LEVEL_TEXT = ('Bounded: KdqTreeBatch / KdqTreeStreaming against the rule recomputed from public outputs with the bootstrap re-drawn under the same seed (critical value, per-batch replacement of test counts, window / silence / persistence schedule, reference replacement). Deductive (counted separately): the control skeleton of KdqTreeStreaming.update / reset (window / silence / persistence schedule) and of KdqTreeBatch.update / set_reference / reset (first batch becomes the reference silently; afterwards drift <=> stored divergence > stored critical value; the drifted batch is remembered cell by cell and the tree is rebuilt from a block with its row count before the next batch is examined - ghost ref_rows) is proved with the partitioner opaque and _inner_set_reference assumed. Claimed as exploration.')
 ASSUMPTIONS = A_COMMON + [
     "ASSUMED (unverified) contract: KdqTreeDetector._inner_set_reference (builds the tree, draws the bootstrap critical "
     "value, resets the epoch); KDQTreePartitioner.fill / kl_distance are opaque in the skeleton proof (their claims are C08)",
